@@ -88,6 +88,7 @@ func c42() {
 		withBytes bool
 	}
 	canon := map[caseKey]string{}
+	noBytesCases, noBytesAll := 0, 0 // observation: nodes without scoring bytes, 1 <= replicators < n
 	canonOrder := map[caseKey]string{}
 
 	for n := 1; n <= maxN; n++ {
@@ -126,6 +127,12 @@ func c42() {
 									continue
 								}
 								set := strings.Join(got, ",")
+								if !withBytes && r >= 1 && r < n {
+									noBytesCases++
+									if len(got) == n {
+										noBytesAll++
+									}
+								}
 								// clause: all sharders when replication is off
 								if r <= 0 && len(got) != n {
 									run.Violation("C42:IsBlockSharder:replication-off:not-every-sharder", desc+fmt.Sprintf(": only %d of %d sharders store the block", len(got), n), replay)
@@ -153,6 +160,7 @@ func c42() {
 			})
 		})
 	}
+	run.Extra["observation_nodes_without_scoring_bytes"] = fmt.Sprintf("%d of %d cases with 1 <= replicators < n made every sharder responsible", noBytesAll, noBytesCases)
 	run.Assumptions = []string{
 		"'enough sharders exist' = the sharder set is at least as large as the configured replicator count; nothing but determinism is required when it is smaller",
 		"the replicator count is the chain configuration value server_chain.block.replicators",
